@@ -706,12 +706,13 @@ func (x *smRun) oracle(sigPath string, pre *census, preAlloc, preSessions int, v
 	if _, ok := x.mgr.GetSession(x.me.id); ok {
 		res.fail(sig("entry"), "session %s is still in the manager after it ended", x.me.id)
 	}
-	if s, ok := x.mgr.GetSessionByMAC(x.me.mac); ok && s != nil && s.ID == x.me.id {
-		res.fail(sig("entry"), "the MAC index still resolves %s to the ended session", x.me.mac)
+	// (found with a nil session = a stale index entry pointing at the deleted session)
+	if s, ok := x.mgr.GetSessionByMAC(x.me.mac); ok && (s == nil || s.ID == x.me.id) {
+		res.fail(sig("entry"), "the MAC index still has an entry for %s that points at the ended session", x.me.mac)
 	}
 	if x.me.ip != nil {
-		if s, ok := x.mgr.GetSessionByIP(x.me.ip); ok && s != nil && s.ID == x.me.id {
-			res.fail(sig("entry"), "the IP index still resolves %s to the ended session", x.me.ip)
+		if s, ok := x.mgr.GetSessionByIP(x.me.ip); ok && (s == nil || s.ID == x.me.id) {
+			res.fail(sig("entry"), "the IP index still has an entry for %s that points at the ended session", x.me.ip)
 		}
 	}
 	if n := len(x.mgr.ListSessions()); n != preSessions+extra {
